@@ -14,7 +14,9 @@
    their items appear in every merged section.
    One file (odd) may additionally carry a section with a name dae does not know: merging must not lose it (it is
    config.New that rejects it afterwards - ConfBuild.tla), wherever in the include graph the file sits.
-   One file (twice) may spell its routing section in two blocks: the typed configuration holds the rules of both, in order. *)
+   One file (twice) may spell its routing section in two blocks: the typed configuration holds the rules of both, in order.
+   Every file gives the repeatable key lan_interface once in its global section: the typed configuration lists the values of all
+   merged files, in merge order (Expected.order). *)
 EXTENDS Integers, Sequences, FiniteSets, TLC, Json
 
 Files == {"main", "a", "z", "c", "b", "p", "o"}
